@@ -253,8 +253,8 @@ def tms_parser_field_def() -> List[Tuple[str, str]]:
     return out
 
 
-def sta_fields() -> List[Tuple[str, int, int]]:
-    tree = parse_file(REPO / "midgard" / "parsers" / "bernese_sta.py")
+def sta_fields(parser: str = "bernese_sta") -> List[Tuple[str, int, int]]:
+    tree = parse_file(REPO / "midgard" / "parsers" / f"{parser}.py")
     for n in ast.walk(tree):
         if isinstance(n, ast.Dict):
             keys = [const_tuple(k) for k in n.keys if k is not None]
@@ -362,6 +362,7 @@ def generate() -> Tuple[str, Dict[str, Any]]:
     refc = sinex_fields("timeseries_ref_coordinate")
     cols = sinex_fields("timeseries_columns")
     sta = sta_fields()
+    sta52 = sta_fields("bernese_sta_v52")
     o = []
     o.append("/-\nGENERATED by translator/extract_writers.py from the working tree of midgard - do not edit.\n"
              "Line layouts of the writers (every formatted string written to a file) and the column tables of the\n"
@@ -405,6 +406,8 @@ def generate() -> Tuple[str, Dict[str, Any]]:
              "def tmsParserFieldDef : List (String × String) := " + lean_list([f"({ls(a)}, {ls(b)})" for a, b in tms_parser_field_def()]) + "\n")
     o.append("/-- fixed columns of parsers/bernese_sta.py (TYPE 002); an open end is 100000 -/\n"
              "def staParserFields : List (String × Nat × Nat) := " + lean_list([f"({ls(a)}, {b}, {c})" for a, b, c in sta]) + "\n")
+    o.append("/-- fixed columns of parsers/bernese_sta_v52.py (TYPE 002); an open end is 100000 -/\n"
+             "def staV52ParserFields : List (String × Nat × Nat) := " + lean_list([f"({ls(a)}, {b}, {c})" for a, b, c in sta52]) + "\n")
     o.append("/-- `plate_def` of writers/bernese_vel.py -/\n"
              "def velPlateDef : List (String × String) := " + lean_list([f"({ls(a)}, {ls(b)})" for a, b in plate_def()]) + "\n")
     o.append("end Midgard.Generated.WriterLayouts\n")
